@@ -17,7 +17,6 @@ and everything else is a violation whose mechanism names (tool, phase, kind, exc
 function).  A violation is reported only after a real process (cliharness.spawn) showed the same outcome
 class; a sample of all classes is re-executed the same way and a disagreement indicts the harness.
 """
-import gc
 import hashlib
 import os
 import random
@@ -85,10 +84,11 @@ REQUIRED = (["tool:cnfgen", "tool:pbgen", "tool:cnfshuffle", "tool:kthlist2pebbl
             + ["reached:" + s for s in SUBS] + ["reached-T:" + t for t in TRANS])
 CASE_TIMEOUT = {"quick": 240, "thorough": 600}
 SHARDS = {"quick": 16, "thorough": 64}
-EXHAUSTIVE_SUBSPACES = ["(graph slot of kcolor / php / peb | dimacs <file> | cnfshuffle -i | kthlist2pebbling -i) x every file of the "
+_SUBSPACES = ["(graph slot of kcolor / php / peb | dimacs <file> | cnfshuffle -i | kthlist2pebbling -i) x every file of the "
                         "scratch zoo x (path alone | each format keyword of the graph type + path): case 'files'",
                         "every help switch of every tool at top level, behind every formula sub-command and behind every "
                         "transformation: case 'help'"]
+EXHAUSTIVE_SUBSPACES = {"quick": _SUBSPACES[1:], "thorough": _SUBSPACES}
 
 HUGE = "123456789012345678901234567890"
 SPAWN_ENV = {"PYTHONWARNINGS": "ignore::SyntaxWarning"}
@@ -141,7 +141,7 @@ for _ext, _text in (("kthlist", KTH_DAG), ("gml", GML_SIMPLE), ("dot", DOT_SIMPL
     FILES["trunc." + _ext] = ("truncated", None, _text[:(len(_text) * 3) // 5])
 # the dot reader (pydot) echoes the offending input line on stdout: files whose lines are lines of a formula are
 # never handed to it (ASSUMPTIONS: noise is tolerated, formula lines are not)
-FORMULA_LIKE = {n for n, (_, _, c) in FILES.items() if isinstance(c, str) and "p cnf" in c}
+FORMULA_LIKE = {n for n, (_, _, c) in FILES.items() if isinstance(c, str) and oc.formula_fragments(c)}
 GRAPH_FORMATS = {"simple": ["kthlist", "gml", "dot", "dimacs"], "dag": ["kthlist", "gml", "dot", "dimacs"],
                  "bipartite": ["kthlist", "gml", "dot", "matrix"]}
 
@@ -256,7 +256,10 @@ def describe_exception(e):
         if fn in names:
             phase = ph
             break
-    return type(e).__name__, inner or (names[-1] if names else "?"), phase
+    if phase == "run" and e.__context__ is not None and e.__context__ is not e:
+        phase = describe_exception(e.__context__)[2]        # error() called from the handler of the original exception
+    family = "ValueError" if isinstance(e, ValueError) else "OSError" if isinstance(e, OSError) else type(e).__name__
+    return type(e).__name__, inner or (names[-1] if names else "?"), phase, family
 
 
 class Taps:
@@ -393,7 +396,6 @@ def execute(zoo, tool, argv, stdin_kind, seed):
                     pass
         taps.namespaces = []
     o = None
-    gc.collect()
     ob.used_random = random.getstate() != state
     ob.files = zoo.outputs()
     return ob
@@ -415,13 +417,13 @@ def judge(ob):
     phase = "parse" if not ob.parse_done else "after-parse"
     default_marker = oc.MARKER[oc.DEFAULT_FORMAT[tool]]
     if ob.exc is not None:
-        etype, fn, ph = ob.exc
+        etype, fn, ph, _ = ob.exc
         where = "int-too-large" if etype in LIMIT_ERRORS else fn
         return ("VIOLATION", "%s:%s:unhandled:%s:%s" % (tool, ph, etype, where),
                 "terminates through an unhandled %s raised in %s() [%s]" % (etype, fn, ob.exc_repr))
     swallowed = ""
     if ob.cli_exit is not None:
-        swallowed = ":".join((ob.cli_exit[2], "%s", ob.cli_exit[0]))
+        swallowed = ":".join((ob.cli_exit[2], "%s", ob.cli_exit[3]))
     if ob.rc == 0:
         if ob.help_exit:
             frag = oc.formula_fragments(ob.out, comments=False)
@@ -459,14 +461,14 @@ def judge(ob):
     frag = oc.formula_fragments(ob.out)
     for name, text in ob.files.items():
         frag = frag or oc.formula_fragments(text)
-    kind = ob.cli_exit[0] if ob.cli_exit is not None else "no-exception"
+    kind = ob.cli_exit[3] if ob.cli_exit is not None else "no-exception"
     ph = ob.cli_exit[2] if ob.cli_exit is not None else phase
-    if frag:
-        return ("VIOLATION", "%s:%s:partial-formula-before-error:%s" % (tool, ph, frag[0][1]),
-                "fails with status %r after writing the %s %r" % (ob.rc, frag[0][1], frag[0][2][:80]))
     if ob.err.strip() == "":
         return ("VIOLATION", "%s:%s:error-without-message-on-stderr:%s" % (tool, ph, kind),
                 "fails with status %r and nothing on stderr (stdout: %r)" % (ob.rc, ob.out[:200]))
+    if frag:
+        return ("VIOLATION", "%s:%s:partial-formula-before-error:%s" % (tool, ph, frag[0][1]),
+                "fails with status %r after writing the %s %r" % (ob.rc, frag[0][1], frag[0][2][:80]))
     markers = (default_marker,) if not ob.parse_done else (oc.MARKER[ob.fmt],)
     bad = oc.unshielded_lines(ob.err, markers)
     if bad:
@@ -904,13 +906,14 @@ def is_output_option(t):
     return t in ("-o", "--output") or (len(t) >= 3 and "--output".startswith(t))
 
 
-def sanitize(argv):
+def sanitize(tool, argv):
     """Nothing may be written outside the scratch directory: the word behind an output option or `save` is a
     scratch path (or '-' / '' / a directory of the zoo); attached forms (-oNAME, --output=NAME) are dropped."""
     def ok(t):
         return t.startswith(WRITE_OK) or t in ("@dir", "@out", "-", "")
     out, i = [], 0
-    argv = [t for t in argv if not ((t.startswith("-o") and t not in ("-o", "-of")) or
+    exact = ("-o", "-of") if tool in ("cnfgen", "pbgen") else ("-o",)
+    argv = [t for t in argv if not ((t.startswith("-o") and t not in exact) or
                                     (t.startswith("--o") and "=" in t and not ok(t.split("=", 1)[1])))]
     while i < len(argv):
         t = argv[i]
@@ -1218,7 +1221,7 @@ def gen_filter(r, T):
                 argv += f
     if r.random() < 0.2:
         argv += r.choice([["--foo"], ["-x"], ["-i"], ["-o"], ["extra"], ["--inp", "-"], ["--", "x"], ["-q", "-q"], ["-i", ""], ["--seed"],
-                          ["-T", "xor", "2"], ["-V"], ["--version"], ["-of", "opb"], [""]])
+                          ["-T", "xor", "2"], ["-V"], ["--version"], ["-l"], [""]])
         ops.append("unknown-option")
     r.shuffle(argv) if r.random() < 0.1 else None
     if tool == "kthlist2pebbling" and r.random() < 0.6:
@@ -1318,7 +1321,7 @@ def run_batch(ctx, tag, commands, nsub):
             safe = size_guard(cmd["argv"])
             if safe != cmd["argv"]:
                 ctx.count("size_guard_trimmed")
-            cmd["argv"] = sanitize(safe)
+            cmd["argv"] = sanitize(cmd["tool"], safe)
             b.run(cmd, i)
         b.resample(ctx.rng("c18-resample", tag), nsub)
         b.finish()
@@ -1350,8 +1353,8 @@ def case_help(ctx, lo, hi):
     run_batch(ctx, ("help", lo), help_commands()[lo:hi], 4)
 
 
-def case_files(ctx, lo, hi):
-    run_batch(ctx, ("files", lo), file_commands()[lo:hi], 3)
+def case_files(ctx, lo, hi, stride, phase):
+    run_batch(ctx, ("files", lo), file_commands()[lo:hi][phase::stride], 3)
 
 
 def case_outside_git_tree(ctx):
@@ -1400,5 +1403,6 @@ def workload(tier, seed):
         yield "help", {"lo": lo, "hi": lo + 120}
     nf = len(file_commands())
     for lo in range(0, nf, 160):
-        yield "files", {"lo": lo, "hi": lo + 160}
+        # quick: every other command of the table (the half depends on the seed), thorough: the whole table
+        yield "files", {"lo": lo, "hi": lo + 160, "stride": 2 if quick else 1, "phase": seed % 2 if quick else 0}
     yield "outside_git_tree", {}
